@@ -48,6 +48,9 @@ impl Crdt for VC {
         s.reset_remove(c);
         Some(())
     }
+    fn own_clock(s: &Clock) -> Option<Clock> {
+        Some(s.clone())
+    }
     fn eq(a: &Clock, b: &Clock) -> Option<bool> {
         Some(a == b)
     }
